@@ -1,6 +1,6 @@
 (* From the call-by-call hypotheses of the full round-trip statement to ops_ok, and from exp_pkts
    to the flat_map form of the expected packets. *)
-From GP Require Import Base NgModel NgIoProofs NgExec NgRoundtrip NgFile.
+From GP Require Import Base NgModel NgIoProofs NgExec NgRoundtrip NgFile NgPrefix NgPrefixFile.
 From Coq Require Import Lia ZifyBool ZifyNat.
 Open Scope Z_scope.
 
@@ -87,4 +87,22 @@ Proof.
   assert (ops_ok [] (WAddIf i0 :: ops)) as Hok by (cbn [ops_ok app]; split; assumption).
   destruct (roundtrip_file ro sec i0 ops Hmix Hsec Hok Hb) as (R1 & R2 & R3).
   cbv zeta. split; [exact R1|]. split; [exact R2|]. rewrite R3. cbn [exp_pkts app]. exact B2.
+Qed.
+
+(* ---------------------------------------------------------------- C14_ng_prefix from the same hypotheses *)
+Theorem prefix_full ro sec i0 ops pre nxt post k :
+  ro_mixed ro = true -> sec_ok sec -> wif_ok i0 -> zlen ops < 4294967290 ->
+  Forall (op_pre (snaps_of i0 ops)) ops ->
+  Forall (fun r => snd r = true) (write_blocks sec i0 ops) ->
+  WAddIf i0 :: ops = pre ++ nxt :: post -> (k < length (enc_op nxt))%nat ->
+  let file := write_file sec i0 ops in
+  forall F, (fuel_for (zlen file) <= F)%nat ->
+  let cut := (length (enc_shb sec) + length (enc_ops pre) + k)%nat in
+  let r := fst (run_d (session ro F) (firstn cut file)) in
+  fst (fst (fst r)) = 0 /\ snd (fst (fst r)) = exp_pkts [] pre /\ snd (fst r) = (if (k =? 0)%nat then 1 else 2).
+Proof.
+  intros Hmix Hsec Hw Hb Hp Ha Hsplit Hk. unfold write_blocks in Ha. inversion Ha as [|? ? _ Hat]; subst.
+  destruct (bridge ops [i0]) as (B1 & B2); [change (zlen [i0]) with 1; lia|exact Hp|exact Hat|].
+  assert (ops_ok [] (WAddIf i0 :: ops)) as Hok by (cbn [ops_ok app]; split; assumption).
+  exact (prefix_file ro sec i0 ops pre nxt post k Hmix Hsec Hok Hb Hsplit Hk).
 Qed.
